@@ -39,6 +39,9 @@ def gen_cases(tier, seed):
                              x0="restart", x0_seed=int(rng.integers(0, 1000)))
             cases.append(c)
             k += 1
+    # stored witness of the open finding KF-C03-ILLCOND-ACTIVE-SET (always exercised)
+    cases.append(work.mk_case("FILE", [0], {"newton": "Full", "iteration_limit": BUDGET}, variant="newton=Full",
+                              gopts={"path": "witness/C03_illcond_active_set.json"}))
     for i in range(nband):
         for vname, v in VARIANTS:
             c = work.mk_case("BAND", [seed, 10_000 + i], dict(v, iteration_limit=BUDGET), variant=vname,
@@ -68,6 +71,35 @@ def in_class(spec):
     return True, ""
 
 
+def active_set_conditioning(spec):
+    """Independent reference solution (scipy trust-constr) -> (smallest singular value of the Jacobian of all
+    constraints active at the solution, rows and bounds; largest multiplier).  Used only to classify a
+    non-converged run for the known-findings file."""
+    try:
+        from scipy.optimize import Bounds, LinearConstraint, minimize
+
+        f = lambda x: 0.5 * x @ spec.Q @ x + spec.q @ x  # noqa: E731
+        g = lambda x: spec.Q @ x + spec.q  # noqa: E731
+        cons = [LinearConstraint(spec.A, spec.cons_lb - spec.e, spec.cons_ub - spec.e)] if spec.m else []
+        r = minimize(f, np.array(spec.meta["xs"], dtype=float), jac=g, hess=lambda x: spec.Q, method="trust-constr",
+                     constraints=cons, bounds=Bounds(spec.var_lb, spec.var_ub),
+                     options=dict(gtol=1e-10, xtol=1e-12, maxiter=3000))
+        x = r.x
+        c = spec.A @ x + spec.e
+        tol = 1e-6
+        rows = [i for i in range(spec.m) if abs(c[i] - spec.cons_lb[i]) < tol or abs(c[i] - spec.cons_ub[i]) < tol]
+        bnds = [j for j in range(spec.n) if abs(x[j] - spec.var_lb[j]) < tol or abs(x[j] - spec.var_ub[j]) < tol]
+        if not rows and not bnds:
+            return None, None
+        G = np.vstack([spec.A[rows].reshape(-1, spec.n), np.eye(spec.n)[bnds].reshape(-1, spec.n)])
+        sv = np.linalg.svd(G, compute_uv=False)
+        smin = float(sv.min()) if G.shape[0] <= spec.n else 0.0
+        mult = np.linalg.lstsq(G.T, -g(x), rcond=None)[0]
+        return smin, float(np.max(np.abs(mult)))
+    except Exception:
+        return None, None
+
+
 def run_case(case):
     p = work.prepare(case, record_sites=False, keep_args=False)
     spec = p.spec
@@ -92,10 +124,15 @@ def run_case(case):
         b *= 2
     res["hist"] = {"iterations_le": {str(b): 1}}
     if r.status.name != "Optimal":
-        res["viol"].append({"what": "status %s after %d iterations (budget %d) on a problem of the stated class, variant %s"
-                                    % (r.status.name, its, BUDGET, v),
-                            "key": dict(key, kind="not-optimal", status=r.status.name),
-                            "detail": {"spec": spec.summary(), "x0": p.x0}})
+        smin, mult = active_set_conditioning(spec)
+        degenerate = bool(smin is not None and smin < 0.1)
+        res["viol"].append({"what": "status %s after %d iterations (budget %d) on a problem of the stated class, variant %s "
+                                    "(independent reference solution: smallest singular value of the Jacobian of the "
+                                    "active rows and active bounds %s, largest multiplier %s)"
+                                    % (r.status.name, its, BUDGET, v, "%.3g" % smin if smin is not None else "n/a",
+                                       "%.3g" % mult if mult is not None else "n/a"),
+                            "key": dict(key, kind="not-optimal", status=r.status.name, degenerate_active_set=degenerate),
+                            "detail": {"spec": spec.summary(), "x0": p.x0, "gseed": case["gseed"]}})
         return res
     res["ctr"]["optimal"] = 1
     if np.any(np.asarray(r.d) != 0):
